@@ -34,6 +34,12 @@ fn check_text(s: &mut Suite, kind: &str, label: &str, der: &[u8], text: &str) {
 
 /// `pem::parse` against the model of it (Model/PemParse.lean): label and contents, or the kind of error
 fn pem_parse_tie(s: &mut Suite, text: &str) {
+	// (the model's matcher is a list program, quadratic in the text: texts beyond 24 KiB are
+	// left to the strict decoder, the pem crate and the loaders themselves)
+	if text.len() > 24 * 1024 {
+		s.rep.count("pem_parse_tie_skipped_large_text");
+		return;
+	}
 	let real = match std::panic::catch_unwind(|| pem::parse(text)) {
 		Ok(Ok(p)) => tagged("ok", &[hex(p.tag().as_bytes()), hex(p.contents())]),
 		Ok(Err(e)) => tagged("err", &[match e {
@@ -271,6 +277,64 @@ pub fn run(ctx: &mut Ctx) -> Report {
 			}
 		}
 		s.rep.exhaustive.push("private-key texts of generated keys (every algorithm) and of keys loaded from OpenSSL / ring documents (PKCS#8 v1, v2, SEC1, PKCS#1 as the build loads them, through each of the seven loading entry points) x the three PEM loaders".into());
+	}
+	// --- large artefacts: a certificate and a request with thousands of alternative names (texts
+	// beyond 64 KiB and 128 KiB): same envelope rules, and rcgen's own loaders still read them
+	{
+		let counts: Vec<usize> = if s.ctx.thorough { vec![700, 2500, 5000, 12000] } else { vec![700, 2500, 5000] };
+		for n in counts {
+			let key = s.ctx.key(&algs[n % algs.len()]);
+			let mut p = PCert::default_like();
+			p.dn = Dn(vec![(DnT::Cn, DnV::Utf8(format!("{} names", n)))]);
+			p.ca = Ca::Ca(None);
+			if cfg!(feature = "nocrypto") {
+				p.serial = Some(vec![5]);
+				p.kid = Kid::Pre(vec![1; 20]);
+			}
+			p.san = (0..n).map(|i| San::Dns(format!("host{}.example.com", i))).collect();
+			let rp = p.real().unwrap();
+			let cert = rp.clone().self_signed(&key).unwrap();
+			let text = cert.pem();
+			s.rep.count(&format!("large_text_kib:{}", text.len() / 1024));
+			check_text(&mut s, "certificate", "CERTIFICATE", cert.der(), &text);
+			#[cfg(not(feature = "nocrypto"))]
+			match CertificateParams::from_ca_cert_pem(&text) {
+				Ok(ip) => {
+					if ip.subject_alt_names != cert.params().subject_alt_names {
+						s.rep.violate("C14:own-loader:certificate", "from_ca_cert_pem read different alternative names back", format!("certificate with {} alternative names, text of {} octets", n, text.len()));
+					}
+				},
+				Err(e) => s.rep.violate("C14:own-loader:certificate", "from_ca_cert_pem refuses rcgen's own PEM", format!("{:?}
+certificate with {} alternative names, text of {} octets: {}", e, n, text.len(), hex(cert.der()))),
+			}
+			let mut q = PCert::default_like();
+			q.dn = p.dn.clone();
+			q.san = p.san.clone();
+			let csr = q.real().unwrap().serialize_request(&key).unwrap();
+			let text = csr.pem().unwrap();
+			check_text(&mut s, "request", "CERTIFICATE REQUEST", csr.der(), &text);
+			#[cfg(not(feature = "nocrypto"))]
+			if let Err(e) = CertificateSigningRequestParams::from_pem(&text) {
+				s.rep.violate("C14:own-loader:request", "CertificateSigningRequestParams::from_pem refuses rcgen's own PEM", format!("{:?}
+request with {} alternative names, text of {} octets: {}", e, n, text.len(), hex(csr.der())));
+			}
+		}
+		s.rep.exhaustive.push("certificates and requests with 700 / 2 500 / 5 000 alternative names (texts of about 30, 100 and 200 KiB) through the envelope rules and rcgen's own loaders".into());
+	}
+	// --- a key held elsewhere has no private-key text: the text accessor answers as the DER
+	// accessor does (both are announced to panic), it does not hand out an envelope of nothing
+	{
+		let r = keys::remote_key(&PKCS_ED25519, &s.ctx.rsa_fixture.clone());
+		let k = r.key_pair;
+		let der = std::panic::catch_unwind(std::panic::AssertUnwindSafe(|| k.serialize_der()));
+		let text = std::panic::catch_unwind(std::panic::AssertUnwindSafe(|| k.serialize_pem()));
+		s.rep.case("serialize_pem / serialize_der of a remote key", true);
+		match (der, text) {
+			(Err(_), Err(_)) => s.rep.count("remote_key_text_refused"),
+			(Ok(d), Ok(t)) => check_text(&mut s, "privateKey", "PRIVATE KEY", &d, &t),
+			(d, t) => s.rep.violate("C14:private-key-text-is-the-der-accessor", "serialize_pem and serialize_der of a key held by a remote signer answer differently: a text that wraps no DER the accessor hands out", format!("serialize_der: {}
+serialize_pem: {}", if d.is_ok() { "returned" } else { "panicked" }, match t { Ok(t) => format!("returned {:?}", t), Err(_) => "panicked".into() })),
+		}
 	}
 	// --- the PEM files the command-line tool writes: each is one PEM text of its kind and nothing
 	// else, also when the directory already holds the files of an earlier run with longer keys
